@@ -28,6 +28,18 @@ var (
 
 func main() {
 	debug.SetMaxStack(256 << 20)
+	// a worker whose request never returns (that is what some checks look for) must not outlive the
+	// test binary that started it: leave as soon as the parent is gone
+	if parent := os.Getppid(); parent > 1 {
+		go func() {
+			for {
+				time.Sleep(2 * time.Second)
+				if os.Getppid() != parent {
+					os.Exit(3)
+				}
+			}
+		}()
+	}
 	protoOut = bufio.NewWriterSize(os.Stdout, 1<<20)
 	r, w, err := os.Pipe()
 	if err != nil {
